@@ -10,6 +10,7 @@ CONSTANTS
   Unis = {FALSE}
   LBs = {"n"}
   Reqs = {"none", "single", "double", "literal", "folded"}
+  IndMax = 0
 INVARIANT NoCrash
 INVARIANT RoundTripOrDiagnosed
 INVARIANT OpenEndedRule
